@@ -38,6 +38,9 @@ type C13Case struct {
 	// ReqHeaders: header lines of the HTTP request (what the user agent - or a script - announces about itself changes neither
 	// the verdict nor where the response goes)
 	ReqHeaders [][2]string `json:"request_headers,omitempty"`
+	// Hist: the provider used the logout endpoint a moment ago - under an earlier registration (other logout locations, or none),
+	// or it was deregistered since. What counts is what is registered when the request under test arrives.
+	Hist *History `json:"history,omitempty"`
 }
 
 var c13ReqHeaders = [][2]string{{"Accept", "application/xml"}, {"Accept", "text/xml, application/samlmetadata+xml"}, {"Accept", "application/json"}, {"Accept", "*/*;q=0"}, {"Accept", ""},
@@ -95,6 +98,19 @@ func genC13Case(t *rapid.T) C13Case {
 	}
 	for i := 0; i < rapid.IntRange(0, 2).Draw(t, "nsess"); i++ {
 		l.SessionIndex = append(l.SessionIndex, fmt.Sprintf("_s%d", i))
+	}
+	if rapid.IntRange(0, 4).Draw(t, "history") == 0 {
+		c.Hist = genHistory(t, spec, c.SP, func(e *world.SPSpec) {
+			switch rapid.IntRange(0, 2).Draw(t, "earlier-slo") {
+			case 0:
+				e.SLO = nil
+			case 1:
+				e.SLO = []world.SLOSpec{{Binding: world.BindPost, Location: fmt.Sprintf("https://old.sp%d.example/slo/moved-since", c.SP)}}
+			default:
+				e.SLO = append([]world.SLOSpec{{Binding: world.BindPost, Location: fmt.Sprintf("https://old.sp%d.example/slo/first-then", c.SP)}}, e.SLO...)
+			}
+		}, true)
+		c.Hist.Warmups = append(c.Hist.Warmups, "logout")
 	}
 	c.Style = genXMLStyle(t)
 	for i := rapid.IntRange(-2, 2).Draw(t, "nreqheaders"); i > 0; i-- {
@@ -454,12 +470,19 @@ func TestC13(t *testing.T) {
 		if c.Noise {
 			wspec = withNoise(wspec)
 		}
-		w := mustBuild(wspec)
+		w := buildWithHistory(wspec, c.Hist, c.Host)
 		if c.Noise {
 			runNoise(w, wspec)
 		}
 		now := time.Now()
 		hr := c13Render(c, now)
+		if c.Hist != nil && c.Hist.Removed {
+			// deregistered since: for the oracles the entity no longer exists (the request still names it)
+			cp := c.Spec
+			cp.SPs = append([]world.SPSpec(nil), c.Spec.SPs...)
+			cp.SPs[c.Hist.SP].EntityID = "urn:deregistered:" + cp.SPs[c.Hist.SP].EntityID
+			c.Spec = cp
+		}
 		sent := evalLogoutSent(c.Spec, hr, now)
 		rep := obs.Do(w.Handler, hr)
 		vs, d, success := c13Oracle(c, hr, rep, sent)
